@@ -178,7 +178,7 @@ func shardName(s uint32) string {
 func main() {
 	_ = logger.SetLogLevel("*:NONE")
 	r := vk.Start("C46")
-	r.Rule("each case: self shard in {0,1,META}; 3..6 miniblock templates over a pool of 6..12 tx hashes (templates may share transactions), every template from or to the self shard; 12..45 operations: RecordBlock of a fresh header (competing height or next height, current epoch, body of 1..3 templates biased to already recorded ones) or, 1 in 4, of a block of the current epoch that was recorded before (A,B,A; A,B,C,A; A,A), OnNotarizedBlocks with 1..2 meta blocks notarizing templates at source/destination/both (a fixed meta block per template and side, possibly delivered again), empty OnNotarizedBlocks, epoch +1 (rarely -1 = rollback over the boundary). After every operation every transaction seen so far is looked up. One evaluation = one lookup compared with the model. A template history is non-trivial when the miniblock was recorded at least twice or notarized; distinct = distinct (self kind, storer kind, direction, event sequence).")
+	r.Rule("each case: self shard in {0,1,META}; 3..6 miniblock templates over a pool of 6..12 tx hashes (templates may share transactions), every template from or to the self shard; 12..45 operations: RecordBlock of a fresh header (competing height or next height, current epoch, body of 1..3 templates sharing no transaction, biased to already recorded ones) or, 1 in 4, of a block of the current epoch that was recorded before (A,B,A; A,B,C,A; A,A), OnNotarizedBlocks with 1..2 meta blocks notarizing templates at source/destination/both (a fixed meta block per template and side, possibly delivered again), empty OnNotarizedBlocks, epoch +1 (rarely -1 = rollback over the boundary). After every operation every transaction seen so far is looked up. One evaluation = one lookup compared with the model. A template history is non-trivial when the miniblock was recorded at least twice or notarized; distinct = distinct (self kind, storer kind, direction, event sequence).")
 	r.Assume("the committed block of a miniblock is the last RecordBlock call containing it (the caller records blocks in commit order; a block that was replaced may be committed and recorded again, with the same header, epoch and body)",
 		"bounded restatement of 'once the notarizing meta block has been seen': the notarization fields are demanded after one further OnNotarizedBlocks call (possibly empty) following both the notification and the latest record of the miniblock",
 		"every (miniblock, side) has one notarizing meta block; records use epochs inside the active window of the metadata storer; the storers are told about a new epoch before blocks of that epoch are recorded",
@@ -370,6 +370,15 @@ func runCase(r *vk.Run, c *vk.Case) {
 				if cl == "same-epoch-rerecord" || cl == "rerecord-of-earlier-header" {
 					key = "stale-block class=" + cl
 				}
+				// the transaction sits in different miniblocks of competing blocks and the block committed last
+				// had been recorded before for this miniblock: its (unchanged) record is skipped, and with it
+				// the refresh of the transaction index
+				for _, rc := range st.records[:len(st.records)-1] {
+					if bytes.Equal(rc.headerHash, exp.headerHash) {
+						key = "stale-tx-index class=tx-moved+block-committed-again"
+						break
+					}
+				}
 				violation(key, fmt.Sprintf("%s: tx %s was last recorded in miniblock mb%d (header %s) but the lookup reports miniblock %x (header %s)", after, txs, t.id, exp.headerHash, md.MiniblockHash[:6], md.HeaderHash), detail(map[string]interface{}{"tx": txs}))
 				continue
 			}
@@ -493,6 +502,7 @@ func runCase(r *vk.Run, c *vk.Case) {
 				b = &blk{hh: []byte(fmt.Sprintf("hdr%d/e%d", hdrSeq, curEpoch)), nonce: height, round: round, epoch: curEpoch, isNew: true}
 				nMb := rng.Range(1, 3)
 				used := map[int]bool{}
+				bodyTx := map[string]bool{}
 				for len(b.tpls) < nMb {
 					var t *mbTemplate
 					// bias to templates that were already recorded (re-records)
@@ -517,6 +527,22 @@ func runCase(r *vk.Run, c *vk.Case) {
 						continue
 					}
 					used[t.id] = true
+					// a transaction appears once per block: skip templates sharing a transaction with the body so far
+					clash := false
+					for _, x := range t.txs {
+						if bodyTx[string(x)] {
+							clash = true
+						}
+					}
+					if clash {
+						if len(used) == len(tpls) {
+							break
+						}
+						continue
+					}
+					for _, x := range t.txs {
+						bodyTx[string(x)] = true
+					}
 					b.tpls = append(b.tpls, t)
 				}
 				if rng.Chance(1, 6) {
